@@ -190,7 +190,7 @@ Proof.
   assert (handle_waiting_for_ack None s = declare_fault_s C_POS_ACK_LIMIT s) as ->.
   { unfold handle_waiting_for_ack, handle_retransmission, handle_positive_ack_procedures_s,
       srcfg_or_assert, snow, gq, gets, bind, ret.
-    rewrite Ht. cbv beta iota. rewrite Hr. cbv beta iota. rewrite Hto. cbv beta iota.
+    rewrite Ht. cbv beta iota. rewrite Hr. cbv beta iota. rewrite Hto. cbv beta iota delta [negb].
     rewrite Hle. reflexivity. }
   destruct (declare_fault_s C_POS_ACK_LIMIT s) as [s' [[]|e]] eqn:Hdf.
   - left. exists s'. apply declare_fault_s_step in Hdf; [|exact Hstep].
@@ -209,4 +209,183 @@ Proof.
   dsrc s. cbn in *. subst st step q rc ackt ckt.
   unfold tail_s, handle_waiting_for_ack, handle_wait_for_finish. msimp.
   destruct (sc_mode cf =? ACKED); reflexivity.
+Qed.
+
+(* ------------------------------------------------------------------ receiver: Finished awaiting its ACK *)
+Arguments handle_waiting_for_finished_ack : simpl never.
+
+(* in step WAITING_FOR_FINISHED_ACK with nothing queued only the last block of __non_idle_fsm acts *)
+Lemma nif_waiting_fin_ack : forall k pkt s,
+  d_step s = DS_WAITING_FOR_FINISHED_ACK -> d_queue s = [] ->
+  non_idle_fsm (S k) pkt s =
+  handle_waiting_for_finished_ack (s0 <- get ;; when (d_state s0 =? ST_BUSY) (non_idle_fsm k None))%monad pkt s.
+Proof.
+  intros k pkt s Hstep Hq.
+  destruct s as [cfg st step stid ready q p env]. cbn in Hstep, Hq. subst step q.
+  cbn [non_idle_fsm]. unfold fsm_advancement, step_is, get_step. msimp. reflexivity.
+Qed.
+
+Lemma dsm_none : forall s, d_state s = ST_BUSY -> Dest.state_machine None s = non_idle_fsm 3 None s.
+Proof.
+  intros s H. unfold Dest.state_machine, get, bind, ret, when. rewrite H.
+  change (ST_BUSY =? ST_IDLE) with false. cbv beta iota. rewrite H. reflexivity.
+Qed.
+
+Lemma dst_fin_wait : forall s r t a b,
+  dst_waiting_fin_ack s r t a b -> timed_out (now_d s) t = false -> Dest.state_machine None s = (s, Ok tt).
+Proof.
+  intros s r t a b (Hst & Hstep & Hq & Hrd & Hr & Ht & Htid & Hm) Hto. unfold now_d in Hto.
+  rewrite dsm_none, nif_waiting_fin_ack by assumption.
+  unfold handle_waiting_for_finished_ack, handle_positive_ack_procedures, rcfg_or_assert, now, gp, gets, bind, ret.
+  rewrite Ht. cbv beta iota. rewrite Hr. cbv beta iota. rewrite Hto. reflexivity.
+Qed.
+
+Lemma dst_fin_resend : forall s r t a b,
+  dst_waiting_fin_ack s r t a b -> timed_out (now_d s) t = true -> p_ack_counter (d_p s) + 1 < r_ack_limit r ->
+  exists s', Dest.state_machine None s = (s', Ok tt) /\
+    (let f := p_fin (d_p s) in
+     d_queue s' = [PFinished (set_dir TOWARDS_SENDER (p_conf (d_p s))) (f_cond f) (f_deliv f) (f_fstatus f) (f_fl f)]) /\
+    p_ack_counter (d_p s') = p_ack_counter (d_p s) + 1 /\ p_ack_timer (d_p s') = Some (now_d s, snd t) /\
+    d_step s' = DS_WAITING_FOR_FINISHED_ACK /\ d_state s' = ST_BUSY /\ p_fin (d_p s') = p_fin (d_p s) /\
+    log_d s' = log_d s /\ fs_d s' = fs_d s.
+Proof.
+  intros s r t a b (Hst & Hstep & Hq & Hrd & Hr & Ht & Htid & Hm) Hto Hlim. unfold now_d, log_d, fs_d in *.
+  assert (r_ack_limit r <=? p_ack_counter (d_p s) + 1 = false) as Hle by (apply Z.leb_gt; lia).
+  rewrite dsm_none, nif_waiting_fin_ack by assumption.
+  ddst s. cbn in *. subst st step q ready rc ackt tid.
+  unfold handle_waiting_for_finished_ack, handle_positive_ack_procedures. msimp.
+  rewrite Hto. msimp. rewrite Hle. msimp.
+  destruct t as [t0 tmo]. msimp.
+  eexists. split; [reflexivity|]. cbn. repeat split; reflexivity.
+Qed.
+
+Lemma fresh_timer_running : forall n tmo, 0 < tmo -> timed_out n (n, tmo) = false.
+Proof. intros n tmo H. unfold timed_out. cbn [fst snd]. rewrite Z.sub_diag. apply Z.leb_gt. exact H. Qed.
+
+Lemma dst_fin_limit_abandons : forall s r t a b,
+  dst_waiting_fin_ack s r t a b -> timed_out (now_d s) t = true -> r_ack_limit r <= p_ack_counter (d_p s) + 1 ->
+  p_disp (d_p s) = DISP_CANCELED ->
+  exists s', Dest.state_machine None s = (s', Ok tt) /\
+    d_state s' = ST_IDLE /\ d_step s' = DS_IDLE /\ d_queue s' = [] /\
+    log_d s' = EvFault FH_ABANDON a b (f_cond (p_fin (d_p s))) (p_progress (d_p s)) :: log_d s.
+Proof.
+  intros s r t a b (Hst & Hstep & Hq & Hrd & Hr & Ht & Htid & Hm) Hto Hlim Hdisp. unfold now_d, log_d in *.
+  assert (r_ack_limit r <=? p_ack_counter (d_p s) + 1 = true) as Hle by (apply Z.leb_le; lia).
+  rewrite dsm_none, nif_waiting_fin_ack by assumption.
+  ddst s. cbn in *. subst st step q ready rc ackt tid disp.
+  unfold handle_waiting_for_finished_ack, handle_positive_ack_procedures. msimp.
+  rewrite Hto. msimp. rewrite Hle. msimp.
+  eexists. split; [reflexivity|]. cbn. repeat split; reflexivity.
+Qed.
+
+Lemma dst_fin_ack_ends : forall s r t a b h acked c st,
+  dst_waiting_fin_ack s r t a b -> check_inserted_packet (PAck h acked c st) s = (s, Ok tt) ->
+  exists s', Dest.state_machine (Some (PAck h acked c st)) s = (s', Ok tt) /\
+    d_state s' = ST_IDLE /\ d_step s' = DS_IDLE /\ d_queue s' = [] /\ log_d s' = log_d s.
+Proof.
+  intros s r t a b h acked c st0 (Hst & Hstep & Hq & Hrd & Hr & Ht & Htid & Hm) Hci. unfold log_d.
+  unfold Dest.state_machine. unfold bind at 1. rewrite Hci.
+  unfold get, bind, ret, when. rewrite Hst. change (ST_BUSY =? ST_IDLE) with false. cbv beta iota. rewrite Hst.
+  change (ST_BUSY =? ST_BUSY) with true. cbv beta iota.
+  rewrite nif_waiting_fin_ack by assumption.
+  ddst s. cbn in *. subst st step q ready rc ackt tid.
+  unfold handle_waiting_for_finished_ack. msimp.
+  eexists. split; [reflexivity|]. cbn. repeat split; reflexivity.
+Qed.
+
+Lemma dst_nak_limit : forall s r eos t,
+  p_deferred (d_p s) = true -> p_rcfg (d_p s) = Some r -> p_file_size_eof (d_p s) = Some eos ->
+  (p_tracker (d_p s) <> [] \/ p_md_missing (d_p s) = true) ->
+  p_proc_timer (d_p s) = Some t -> timed_out (now_d s) t = true -> p_nak_counter (d_p s) + 1 = r_nak_limit r ->
+  deferred_lost_segment_handling s =
+    (fst (declare_fault C_NAK_LIMIT s), match snd (declare_fault C_NAK_LIMIT s) with Ok _ => Ok tt | Err e => Err e end).
+Proof.
+  intros s r eos t Hd Hr He Hmiss Ht Hto Hlim. unfold now_d in Hto.
+  assert ((zlen (p_tracker (d_p s)) =? 0) && negb (p_md_missing (d_p s)) = false) as Hz.
+  { destruct Hmiss as [Hn|Hm]; [|rewrite Hm; apply andb_false_r].
+    destruct (p_tracker (d_p s)); [contradiction|]. reflexivity. }
+  assert (p_nak_counter (d_p s) + 1 =? r_nak_limit r = true) as Heq by (apply Z.eqb_eq; exact Hlim).
+  unfold deferred_lost_segment_handling, rcfg_or_assert, now, gp, gets, bind, ret.
+  rewrite Hd. change (negb true) with false. cbv beta iota. rewrite Hr. cbv beta iota. rewrite He. cbv beta iota.
+  rewrite Hz. cbv beta iota. rewrite Ht. cbv beta iota. rewrite Hto. change (negb true) with false. cbv beta iota.
+  rewrite Heq. change (negb false && true) with true. cbv beta iota.
+  destruct (declare_fault C_NAK_LIMIT s) as [s' [x|e]]; reflexivity.
+Qed.
+
+Lemma dst_nak_progress_resets : forall s t,
+  p_proc_timer (d_p s) = Some t ->
+  reset_nak_activity_parameters s =
+    (s <| d_p ::= (fun p => p <| p_nak_counter := 0 |> <| p_proc_timer := Some (now_d s, snd t) |>) |>, Ok tt).
+Proof.
+  intros s [t0 tmo] Ht. unfold now_d.
+  unfold reset_nak_activity_parameters, now, setp, modify, gp, gets, bind, ret.
+  rewrite Ht. reflexivity.
+Qed.
+
+(* the nested state_machine() call after the notice of cancellation: completion, Finished (cancel) PDU,
+   positive ACK procedure restarted *)
+Lemma nif_cancel_completion : forall s r a b,
+  d_state s = ST_BUSY -> d_step s = DS_TRANSFER_COMPLETION -> d_queue s = [] -> d_ready s = 0 ->
+  p_rcfg (d_p s) = Some r -> p_tid (d_p s) = Some (a, b) -> h_mode (p_conf (d_p s)) = ACKED ->
+  p_disp (d_p s) = DISP_CANCELED -> 0 < r_ack_ms r ->
+  exists s' fstatus',
+    non_idle_fsm 2 None s = (s', Ok tt) /\
+    d_queue s' = [PFinished (set_dir TOWARDS_SENDER (p_conf (d_p s))) (f_cond (p_fin (d_p s))) (f_deliv (p_fin (d_p s)))
+                            fstatus' (f_fl (p_fin (d_p s)))] /\
+    p_ack_counter (d_p s') = 0 /\ p_ack_timer (d_p s') = Some (now_d s, r_ack_ms r) /\
+    d_step s' = DS_WAITING_FOR_FINISHED_ACK /\ d_state s' = ST_BUSY /\ p_disp (d_p s') = DISP_CANCELED /\
+    (exists evs, log_d s' = evs ++ log_d s /\
+                 (evs = [] \/ evs = [EvFinished a b (f_cond (p_fin (d_p s))) (f_deliv (p_fin (d_p s))) fstatus'
+                                                (f_fl (p_fin (d_p s)))])).
+Proof.
+  intros s r a b Hst Hstep Hq Hrd Hr Htid Hm Hdisp Hms. unfold now_d, log_d.
+  ddst s. cbn in Hst, Hstep, Hq, Hrd, Hr, Htid, Hm, Hdisp. subst st step q ready rc tid disp.
+  destruct cf as [hdir hmode hcrc hlarge hsrc hdst hidw hseq hseqw]. cbn in Hm. subst hmode.
+  cbn [non_idle_fsm]. generalize (non_idle_fsm 1 None). intros ag.
+  unfold fsm_advancement, step_is, get_step, handle_transfer_completion, notice_of_completion, rcfg_or_assert,
+    mode_is, tmode, gp. msimp.
+  destruct (l_ind_fin cfg) eqn:Hind;
+    (match goal with |- context[r_disposition r && ?x] => destruct (r_disposition r && x) end);
+    msimp; rewrite ?Hind; msimp;
+    unfold handle_waiting_for_finished_ack, handle_positive_ack_procedures; msimp;
+    rewrite (fresh_timer_running nw (r_ack_ms r) Hms); msimp;
+    (eexists; eexists; split; [reflexivity|]; cbn;
+     split; [reflexivity|]; split; [reflexivity|]; split; [reflexivity|]; split; [reflexivity|];
+     split; [reflexivity|]; split; [reflexivity|];
+     first [ exists []; split; [reflexivity | left; reflexivity]
+           | eexists; split; [|right; reflexivity]; reflexivity ]).
+Qed.
+
+Lemma dst_fin_limit_cancels : forall s r t a b,
+  dst_waiting_fin_ack s r t a b -> timed_out (now_d s) t = true -> r_ack_limit r <= p_ack_counter (d_p s) + 1 ->
+  p_disp (d_p s) <> DISP_CANCELED -> get_fault_handler (l_faults (d_cfg s)) C_POS_ACK_LIMIT = Some FH_CANCEL ->
+  0 < r_ack_ms r ->
+  exists s' fstatus',
+    Dest.state_machine None s = (s', Ok tt) /\
+    d_queue s' = [PFinished (set_dir TOWARDS_SENDER (p_conf (d_p s))) C_POS_ACK_LIMIT (f_deliv (p_fin (d_p s))) fstatus'
+                            (f_fl (p_fin (d_p s)))] /\
+    p_ack_counter (d_p s') = 0 /\ p_ack_timer (d_p s') = Some (now_d s, r_ack_ms r) /\
+    d_step s' = DS_WAITING_FOR_FINISHED_ACK /\ d_state s' = ST_BUSY /\ p_disp (d_p s') = DISP_CANCELED /\
+    (exists evs, log_d s' = evs ++ EvFault FH_CANCEL a b C_POS_ACK_LIMIT (p_progress (d_p s)) :: log_d s /\
+                 (evs = [] \/ evs = [EvFinished a b C_POS_ACK_LIMIT (f_deliv (p_fin (d_p s))) fstatus' (f_fl (p_fin (d_p s)))])).
+Proof.
+  intros s r t a b (Hst & Hstep & Hq & Hrd & Hr & Ht & Htid & Hm) Hto Hlim Hdisp Hfh Hms. unfold now_d, log_d in *.
+  assert (r_ack_limit r <=? p_ack_counter (d_p s) + 1 = true) as Hle by (apply Z.leb_le; lia).
+  assert (p_disp (d_p s) =? DISP_CANCELED = false) as Hdc by (apply Z.eqb_neq; exact Hdisp).
+  rewrite dsm_none, nif_waiting_fin_ack by assumption.
+  remember (non_idle_fsm 2 None) as ag eqn:Hag.
+  ddst s. cbn in Hst, Hstep, Hq, Hrd, Hr, Ht, Htid, Hm, Hto, Hlim, Hdisp, Hfh, Hle, Hdc. subst st step q ready rc ackt tid.
+  unfold handle_waiting_for_finished_ack, handle_positive_ack_procedures. msimp.
+  rewrite Hto. msimp. rewrite Hle. msimp. rewrite Hdc. msimp.
+  unfold declare_fault. msimp. rewrite Hfh. msimp.
+  subst ag.
+  match goal with |- context[non_idle_fsm 2 None ?st] =>
+    destruct (nif_cancel_completion st r a b) as (s' & fstatus' & Hrun & Hq' & Hc' & Ht' & Hstep' & Hst' & Hd' & evs & Hlog & Hevs);
+      [reflexivity | reflexivity | reflexivity | reflexivity | reflexivity | reflexivity | exact Hm | reflexivity | exact Hms |]
+  end.
+  rewrite Hrun. msimp.
+  exists s', fstatus'. split; [reflexivity|].
+  split; [exact Hq'|]. split; [exact Hc'|]. split; [exact Ht'|]. split; [exact Hstep'|]. split; [exact Hst'|].
+  split; [exact Hd'|].
+  exists evs. split; [exact Hlog | exact Hevs].
 Qed.
